@@ -1,0 +1,71 @@
+//! C33: small constructors the harness cannot reach from outside the crate. The hook that
+//! runs the private `AuthSession::issue_uat` lives at the end of `idm/authsession/mod.rs`
+//! (`AuthSession::verif_c33_issue`) and is re-exported here as a plain function.
+
+use crate::idm::authsession::AuthSession;
+use crate::idm::delayed::DelayedAction;
+use crate::prelude::*;
+use crate::value::AuthType;
+use crypto_glue::traits::DecodePem;
+use crypto_glue::x509::{x509_digest_public_key_sha256, Certificate};
+use kanidm_proto::internal::UserAuthToken;
+
+/// `OffsetDateTime::UNIX_EPOCH + d` (the harness has no direct dependency on `time`).
+pub fn odt(d: Duration) -> time::OffsetDateTime {
+    time::OffsetDateTime::UNIX_EPOCH + d
+}
+
+/// Nanoseconds since the unix epoch of an `OffsetDateTime` (0 if before the epoch).
+pub fn odt_nanos(t: time::OffsetDateTime) -> u128 {
+    let n = t.unix_timestamp_nanos();
+    if n < 0 {
+        0
+    } else {
+        n as u128
+    }
+}
+
+/// What the HTTPS front end derives from a verified peer certificate (core/src/https/mod.rs).
+pub fn client_cert_info_from_pem(pem: &str) -> Option<ClientCertInfo> {
+    let certificate = Certificate::from_pem(pem).ok()?;
+    let public_key_s256 = x509_digest_public_key_sha256(&certificate)?;
+    Some(ClientCertInfo {
+        public_key_s256,
+        certificate,
+    })
+}
+
+/// Result of one `issue_uat` call: the token as issued in memory, the signed bearer token, and
+/// the delayed action (session record) the call queued, if any.
+pub struct HookIssued {
+    pub uat: UserAuthToken,
+    pub token: compact_jwt::JwsCompact,
+    pub delayed: Option<DelayedAction>,
+}
+
+/// See `AuthSession::verif_c33_issue`.
+#[allow(clippy::too_many_arguments)]
+pub fn issue_uat<'a, TXN: QueryServerTransaction<'a>>(
+    qs: &mut TXN,
+    account_uuid: Uuid,
+    auth_type: AuthType,
+    cred_id: Uuid,
+    privileged: bool,
+    reauth: Option<(bool, Uuid, Option<Duration>)>,
+    time: Duration,
+) -> Result<HookIssued, OperationError> {
+    AuthSession::verif_c33_issue(
+        qs,
+        account_uuid,
+        auth_type,
+        cred_id,
+        privileged,
+        reauth,
+        time,
+    )
+    .map(|(uat, token, delayed)| HookIssued {
+        uat,
+        token,
+        delayed,
+    })
+}
